@@ -90,8 +90,11 @@ func (ts *tcpSession) call(c *callSpec) string {
 	var events []string
 	var res string
 	if c.kind == "D" {
-		s.cl.Disconnect()
-		res = "ok [ ]"
+		if r := disconnectBounded(s.cl); r != "ok" {
+			res = r
+		} else {
+			res = "ok [ ]"
+		}
 	} else {
 		if !connBefore {
 			events = append(events, "dial1")
@@ -143,9 +146,9 @@ func (ts *tcpSession) call(c *callSpec) string {
 }
 
 func (ts *tcpSession) close() {
-	ts.cl.Disconnect()
+	disconnectBounded(ts.cl)
 	ts.ln.Close()
-	ts.p.wg.Wait()
+	waitBounded(&ts.p.wg)
 }
 
 func (g *gen) tcpFail(ms []rscp.Message) replySpec {
@@ -186,6 +189,8 @@ func init() {
 				quick  map[int]bool          // calls that are answered at once and have to return at once
 				hb     time.Duration         // HeartbeatInterval of the client (0 = the usual one)
 				host   string                // how the client names the device ("" = its IP address)
+				key    string                // the device's key ("" = the usual one)
+				goOnly bool                  // judged by the oracles here alone (the token-level model has no word for the fault)
 				op     string
 				impl   string
 				prop   string
@@ -359,6 +364,29 @@ func init() {
 				}
 				scs = append(scs, sc)
 			}
+			// (12) two devices in one process whose keys have the same CRC-32 once padded, two whose keys agree in the first
+			// 31 bytes, and one with a key of 32 bytes of 0xFF: each client talks to its own device
+			for _, k := range []string{"rscpkey-29685295", "rscpkey-32060020", "0123456789abcdef0123456789abcdeX", "0123456789abcdef0123456789abcdeY", strings.Repeat("\xff", 32), strings.Repeat("\xff", 31)} {
+				sc := &scenario{name: fmt.Sprintf("options key=%q", k), fails: map[int]bool{}, key: k}
+				for c := 0; c < 3; c++ {
+					sc.calls = append(sc.calls, healthy(c))
+				}
+				scs = append(scs, sc)
+			}
+			// (13) a checksummed reply altered in one bit - the length field of its last item, so that the item runs into the
+			// checksum field; or the ciphertext of its last block, which CBC carries into the header of what follows - and right
+			// behind it a further well-formed frame: the call fails, the frame behind is never taken for the answer
+			for v := 0; v < 6; v++ {
+				sc := &scenario{name: fmt.Sprintf("altered-reply-then-frame-%d", v), fails: map[int]bool{1: true}, goOnly: true}
+				for k := 0; k < 3; k++ {
+					c := healthy(k)
+					if k == 1 {
+						c.user = replySpec{behaviour{kind: "alteredThenFrame", k: v, items: encItems([]rscp.Message{{Tag: rscp.INFO_SERIAL_NUMBER, DataType: rscp.CString, Value: "S10-4711-0815"[:12]}})}, "X"}
+					}
+					sc.calls = append(sc.calls, c)
+				}
+				scs = append(scs, sc)
+			}
 			// (5) a reply damaged in transit once (one bit of the frame's time stamp, checksum untouched): the call fails
 			// with a checksum error, its request reached the device once, the next call works on a new connection
 			for j := 0; j < 2; j++ {
@@ -383,7 +411,11 @@ func init() {
 						tcpHeartbeat = sc.hb
 					}
 					tcpHost = sc.host
-					ts, err := newTCPSession(user, pw, "sckey")
+					key := "sckey"
+					if sc.key != "" {
+						key = sc.key
+					}
+					ts, err := newTCPSession(user, pw, key)
 					tcpHeartbeat, tcpHost = time.Second+1, ""
 					tcpMu.Unlock()
 					if err != nil {
@@ -422,7 +454,7 @@ func init() {
 						}
 						if sc.fails[k] && strings.HasPrefix(r, "ok") {
 							addVerdict(&prop, "FAIL C08 a call that cannot succeed (never answered / refused / damaged reply) returns success: "+trunc(r, 120))
-							if c.user.beh.kind == "badCrcOnce" {
+							if c.user.beh.kind == "badCrcOnce" || c.user.beh.kind == "alteredThenFrame" {
 								addVerdict(&prop, "FAIL C04 a reply whose checksum does not match is not reported as an error: "+trunc(r, 120))
 							}
 						}
@@ -455,9 +487,47 @@ func init() {
 			}
 			wg.Wait()
 			for _, sc := range scs {
-				if sc.op != "" {
+				if sc.op != "" && sc.goOnly {
+					cw.add("skip", "skip", "N tcp "+sc.name, sc.prop)
+				} else if sc.op != "" {
 					cw.add(sc.op, sc.impl, "N tcp "+sc.name, sc.prop)
 				}
+			}
+			// a client whose device is unreachable (nothing listens on its port) tries twelve times; a different client with a
+			// healthy device is not affected by that
+			{
+				prop := "pass"
+				if ln, err := net.Listen("tcp", "127.0.0.1:0"); err == nil {
+					_, port, _ := net.SplitHostPort(ln.Addr().String())
+					ln.Close()
+					pn, _ := strconv.Atoi(port)
+					if dead, err := rscp.NewClient(rscp.ClientConfig{Address: "127.0.0.1", Port: uint16(pn), Username: "u", Password: "p", Key: "k",
+						ConnectionTimeout: 500 * time.Millisecond, SendTimeout: time.Second, ReceiveTimeout: time.Second}); err == nil {
+						for k := 0; k < 12; k++ {
+							done := make(chan bool, 1)
+							go func() {
+								defer func() { recover(); done <- true }()
+								_, _ = dead.Send(rscp.Message{Tag: rscp.INFO_REQ_UTC_TIME, DataType: rscp.None})
+							}()
+							select {
+							case <-done:
+							case <-time.After(5 * time.Second):
+								prop = "FAIL C10 a call to a port nobody listens on does not return"
+							}
+						}
+						tcpMu.Lock()
+						ts, err := newTCPSession("afteroutage", "pw", "sckey")
+						tcpMu.Unlock()
+						if err == nil {
+							c := healthy(0)
+							if r := ts.call(c); !strings.HasPrefix(r, "ok ") && prop == "pass" {
+								prop = "FAIL C17 after twelve failed connection attempts of another client, a client with a healthy device gets " + trunc(r, 100) + " ;; FAIL C08 no recovery: a healthy device is not reached: " + trunc(r, 100)
+							}
+							ts.close()
+						}
+					}
+				}
+				cw.add("skip", "skip", "N tcp healthy-client-beside-unreachable-device", prop)
 			}
 		}
 		for i := 0; i < n; i++ {
